@@ -9,14 +9,130 @@ package client
 immutable HTTPClient.hasherF by NewSimpleHTTPClient, NewHTTPClient, SetHasherFunction.$1
 immutable HTTPClient.log by NewSimpleHTTPClient, NewHTTPClient, SetLogger.$1
 
+// ---- C20: endpoint selection --------------------------------------------------------
+
+// no nil entries; the round-robin cursor is -1 (fresh) or a valid index
+define TopoInv(t) = (forall k int :: 0 <= k && k < len(t.endpoints) ==> t.endpoints[k] != nil) && -1 <= t.cIndex && (t.cIndex == -1 || t.cIndex < len(t.endpoints))
+
+// round-robin bookkeeping: after i steps from cursor c0 (over n endpoints) the
+// cursor is wrapN(c0+i) and the indices k with inCyc(c0,i,n,k) have been visited
+define wrapN(x, n) = ite(x < n, x, ite(x < 2 * n, x - n, x - 2 * n))
+define inCyc(c0, i, n, k) = (c0 < k && k <= c0 + i) || (c0 < k + n && k + n <= c0 + i)
+define cursorAt(t, c0, i, n) = (i == 0 ==> t.cIndex == c0) && (i > 0 ==> t.cIndex == wrapN(c0 + i, n))
+define liveSecondary(e) = e.nodeType == secondary && !e.dead
+// k lies strictly between cursor positions c0 and c1 in cyclic order
+define between(c0, c1, k) = (c0 < c1 && c0 < k && k < c1) || (c1 <= c0 && (k > c0 || k < c1))
+
+func endpoint.IsDead
+  props C20
+  ensures result == c.dead
+func endpoint.MarkAsAlive
+  props C20
+  modifies c.dead
+  ensures !c.dead
+func endpoint.MarkAsDead
+  props C20
+  modifies c.dead, c.deadSince, c.failures
+  ensures c.dead
+func endpoint.MarkAsHealthy
+  props C20
+  modifies c.dead, c.deadSince, c.failures
+  ensures !c.dead
+
+func topology.Primary
+  props C20
+  ensures result_0 == t.primary
+  ensures result_1 == nil ==> result_0 != nil && !result_0.dead
+  ensures t.primary == nil ==> result_1 == ErrNoPrimary
+  ensures t.primary != nil && t.primary.dead ==> result_1 == ErrPrimaryDead
+
+func topology.HasActivePrimary
+  props C20
+  ensures result == (t.primary != nil && !t.primary.dead)
+
+func topology.NextReadEndpoint
+  props C20
+  requires TopoInv(t)
+  modifies t.cIndex, all(endpoint.dead) when t.attemptToRevive
+  ensures C20/inv-preserved: TopoInv(t)
+  ensures C20/topology-unchanged: unchanged(t.endpoints, t.primary)
+  ensures C20/ok-has-no-error: result_0 != nil ==> isnil(result_1)
+  ensures C20/never-dead: result_0 != nil ==> !result_0.dead
+  ensures C20/primary-only: result_0 != nil && pref == Primary ==> result_0 == t.primary
+  ensures C20/secondary-only: result_0 != nil && pref == Secondary ==> result_0.nodeType == secondary
+  ensures C20/preferred: result_0 != nil && (pref == PrimaryPreferred || pref == SecondaryPreferred) ==> result_0 == t.primary || result_0.nodeType == secondary
+  ensures C20/cursor-on-returned: result_0 != nil && result_0 != t.primary ==> 0 <= t.cIndex && t.cIndex < len(t.endpoints) && t.endpoints[t.cIndex] == result_0
+  ensures C20/no-endpoint-error: result_0 == nil ==> result_1 == ErrNoEndpoint
+  // completeness: "no endpoint" is only answered when no live permitted endpoint existed
+  ensures C20/complete-secondary: result_0 == nil && (pref == Secondary || pref == PrimaryPreferred || pref == SecondaryPreferred) ==> forall k int :: 0 <= k && k < len(t.endpoints) ==> !old(liveSecondary(t.endpoints[k]))
+  ensures C20/complete-any: result_0 == nil && pref == Any ==> forall k int :: 0 <= k && k < len(t.endpoints) ==> old(t.endpoints[k].dead)
+  ensures C20/complete-primary: result_0 == nil && (pref == Primary || pref == PrimaryPreferred || pref == SecondaryPreferred) ==> t.primary == nil || old(t.primary.dead)
+  // fairness: a returned secondary is the FIRST live one after the old cursor, in cyclic order
+  ensures C20/first-after-cursor: result_0 != nil && result_0 != t.primary && pref == Secondary ==> forall k int :: 0 <= k && k < len(t.endpoints) && between(old(t.cIndex), t.cIndex, k) ==> !liveSecondary(t.endpoints[k])
+  loop 1 modifies t.cIndex
+  loop 1 invariant numEndpoints == len(t.endpoints) && numEndpoints > 0 && 0 <= i && i <= numEndpoints + 1 && TopoInv(t)
+  loop 1 decreases numEndpoints + 1 - i
+  loop 1 invariant cursor: cursorAt(t, old(t.cIndex), i, numEndpoints)
+  loop 1 invariant visited: forall k int :: 0 <= k && k < numEndpoints && inCyc(old(t.cIndex), i, numEndpoints, k) ==> !liveSecondary(t.endpoints[k])
+  loop 2 invariant cursor: cursorAt(t, old(t.cIndex), i, numEndpoints)
+  loop 2 invariant visited: forall k int :: 0 <= k && k < numEndpoints && inCyc(old(t.cIndex), i, numEndpoints, k) ==> !liveSecondary(t.endpoints[k])
+  loop 3 invariant cursor: cursorAt(t, old(t.cIndex), i, numEndpoints)
+  loop 3 invariant visited: forall k int :: 0 <= k && k < numEndpoints && inCyc(old(t.cIndex), i, numEndpoints, k) ==> t.endpoints[k].dead
+  loop 2 modifies t.cIndex
+  loop 2 invariant numEndpoints == len(t.endpoints) && numEndpoints > 0 && 0 <= i && i <= numEndpoints + 1 && TopoInv(t)
+  loop 2 decreases numEndpoints + 1 - i
+  loop 3 modifies t.cIndex
+  loop 3 invariant numEndpoints == len(t.endpoints) && numEndpoints > 0 && 0 <= i && i <= numEndpoints + 1 && TopoInv(t)
+  loop 3 decreases numEndpoints + 1 - i
+  loop 4 modifies all(endpoint.dead)
+  loop 4 invariant TopoInv(t)
+
 // What a server (or whoever answers on its address) returns is arbitrary:
 // no postcondition on the body.
+immutable HTTPClient.topology by NewSimpleHTTPClient, NewHTTPClient, HTTPClient.Close
+immutable HTTPClient.healthCheckEnabled by NewSimpleHTTPClient, NewHTTPClient, SetHealthChecks.$1
+immutable HTTPClient.discoveryEnabled by NewSimpleHTTPClient, NewHTTPClient, SetTopologyDiscovery.$1
+immutable BackoffRequestRetrier.Client, BackoffRequestRetrier.maxRetries, BackoffRequestRetrier.backoff, BackoffRequestRetrier.log by NewBackoffRequestRetrier, NewBackoffRequestRetrierWithLogger
+
 func HTTPClient.callAny
-  modifies everything
-func HTTPClient.callPrimary
-  modifies everything
+  modifies everything, reqCount, lastReqWasPrimary
+
+// one request per doReq call; the ghost records whether it went to the primary
 func HTTPClient.doReq
+  modifies everything, reqCount, lastReqWasPrimary
+  assumes reqCount == old(reqCount) + 1
+  assumes lastReqWasPrimary == (c.topology != nil && endpoint == old(c.topology.primary))
+
+func HTTPClient.clusterHealthCheck
   modifies everything
+func HTTPClient.discover
+  modifies everything
+
+// C20: a write is sent at most once, and only to the endpoint the topology
+// names as primary at that moment; the retry loop runs at most three times
+func HTTPClient.callPrimary
+  props C20
+  requires c.topology != nil
+  modifies everything, reqCount, lastReqWasPrimary
+  ensures C20/at-most-one-request: reqCount == old(reqCount) || reqCount == old(reqCount) + 1
+  ensures C20/writes-go-to-primary: reqCount == old(reqCount) + 1 ==> lastReqWasPrimary
+  loop 1 modifies everything
+  loop 1 invariant reqCount == old(reqCount) && c.topology != nil
+  loop 1 decreases ite(healthRetried, int(0), int(1)) + ite(discoveryRetried, int(0), int(1))
+
+// C20: bounded retries
+func BackoffRequestRetrier.DoReq
+  props C20
+  requires req != nil && req.Request != nil && !isnil(r.log) && !isnil(r.backoff) && r.Client != nil
+  modifies everything
+  loop 1 modifies everything
+  loop 1 invariant i >= 0 && (i == 0 || i <= r.maxRetries) && req != nil && req.Request != nil
+  loop 1 decreases ite(r.maxRetries - i > 0, r.maxRetries - i, int(0))
+
+immutable RetriableRequest.Request, RetriableRequest.body by NewRetriableRequest
+
+// a backoff policy only updates its own random source (not modelled)
+func Backoff.Next
 
 // ---- C12: decoding and verifying any answer never panics -----------------------
 // API-level assumptions: the configured hasher factory is pure and returns
